@@ -49,13 +49,14 @@ package gocvss31
 //@   ensures[error_value] (=> (not (isnil result)) (= result (ite (< (midx31 abv) 0) (PErr T_ErrInvalidMetric abv) ErrInvalidMetricValue)))
 //@   ensures[err_unknown_metric] (=> (< (midx31 abv) 0) (and (is-ErrInvalidMetric result) (str= (pabv result) abv)))
 //@   ensures[err_illegal_value] (=> (and (>= (midx31 abv) 0) (= (vcode31 (midx31 abv) value) #xff)) (= result ErrInvalidMetricValue))
-//@   allocs 0
+//@   ensures[no_allocation_known_metric] (=> (>= (midx31 abv) 0) (= allocs (old allocs)))
 
 //@ func (CVSS31).Get(cvss31, abv)
 //@   requires[wf] (wf31 cvss31)
 //@   ensures[known_metric_value] (=> (>= (midx31 abv) 0) (and (isnil result.1) (= (vcode31 (midx31 abv) result.0) (field31 cvss31 (midx31 abv))) (not (= (vcode31 (midx31 abv) result.0) #xff))))
 //@   ensures[nonempty] (=> (>= (midx31 abv) 0) (> (len result.0) 0))
 //@   ensures[unknown_metric] (=> (< (midx31 abv) 0) (and (is-ErrInvalidMetric result.1) (str= (pabv result.1) abv) (= (len result.0) 0)))
+//@   ensures[no_allocation_known_metric] (=> (>= (midx31 abv) 0) (= allocs (old allocs)))
 
 //@ func validate(value, enabled)
 //@   requires[short_list] (<= (len enabled) 255)
@@ -84,6 +85,7 @@ package gocvss31
 //@   ensures[duplicate] (=> (and (>= (midx31 abv) 0) (kvmflag (old kvm) (midx31 abv))) (and (is-ErrDefinedN result) (str= (pabv result) abv) (= kvm (old kvm))))
 //@   ensures[fresh] (=> (and (>= (midx31 abv) 0) (not (kvmflag (old kvm) (midx31 abv)))) (and (isnil result) (forall-in (m 0 21) (= (kvmflag kvm m) (or (kvmflag (old kvm) m) (= m (midx31 abv)))))))
 //@   ensures[seen_array] (and (=> (>= (midx31 abv) 0) (= (isnil result) (not (select (kvmarr (old kvm)) (midx31 abv))))) (=> (isnil result) (= (kvmarr kvm) (store (kvmarr (old kvm)) (midx31 abv) true))) (=> (not (isnil result)) (= kvm (old kvm))))
+//@   ensures[no_allocation_on_success] (=> (isnil result) (= allocs (old allocs)))
 //@   ensures[error_kind] (and (=> (< (midx31 abv) 0) (= result (PErr T_ErrInvalidMetric abv))) (=> (and (>= (midx31 abv) 0) (not (isnil result))) (= result (PErr T_ErrDefinedN abv))))
 
 // ---- splitCouple (C01, C06, C18): cut an element at its first ':' ----
@@ -94,7 +96,7 @@ package gocvss31
 //@   loop 1 decreases (- (len couple) i)
 //@   ensures[key] (same-str result.0 (elemkey couple))
 //@   ensures[value] (same-str result.1 (elemval couple))
-//@   allocs 0
+//@   ensures[no_allocation] (= allocs (old allocs))
 
 // ---- ParseVector (C01, C06, C13, C18) against the reference fold parseRes31 ----
 
@@ -107,6 +109,7 @@ package gocvss31
 //@   loop 1 invariant[nosep] (forall ((p Int)) (! (=> (and (<= (+ (+ vector.off 9) start) p) (< p (+ (+ vector.off 9) i))) (not (= (select vector.arr p) #x2f))) :pattern ((select vector.arr p))))
 //@   loop 1 invariant[fold] (let ((V (substr vector 9 (len vector)))) (= (fold31 V 0 noneSeen noVals) (fold31 V start (kvmarr kvm) (valsarr31 cvss31))))
 //@   loop 1 invariant[wf] (wf31 cvss31)
+//@   loop 1 invariant[one_allocation_so_far] (= allocs (+ (old allocs) 1))
 //@   loop 1 decreases (- (+ l 2) i)
 //@   lemma[element_end] after splitCouple#1 (let ((V (substr vector 9 (len vector)))) (= (nextsep V start) i))
 //@   assume_def[unfold_fold_at_element] after splitCouple#1 (let ((V (substr vector 9 (len vector)))) (fold31_def V start (kvmarr kvm) (valsarr31 cvss31)))
@@ -116,6 +119,44 @@ package gocvss31
 //@   ensures[accept_implies_prefix] (=> (isnil result.1) (hasHeader31 vector))
 //@   ensures[accept_object] (=> (isnil result.1) (and (not (isnil result.0)) (wf31 (deref result.0)) (forall-in (m 0 21) (= (field31 (deref result.0) m) (select (p.vals (parseRes31 vector)) m)))))
 //@   ensures[reject_nil] (=> (not (isnil result.1)) (isnil result.0))
+//@   ensures[allocation_budget] (=> (isnil result.1) (<= allocs (+ (old allocs) 1)))
+
+// ---- Vector / lenVec (C02, C08, C17): the serialiser writes the canonical form in one allocation ----
+
+//@ func lenVec(cvss31)
+//@   requires[wf] (wf31 cvss31)
+//@   inline get Get
+//@   ensures[exact] (= result (canonLen31 cvss31))
+//@   ensures[no_allocation] (= allocs (old allocs))
+
+//@ func (CVSS31).Vector(cvss31)
+//@   requires[wf] (wf31 cvss31)
+//@   opt prune_infeasible
+//@   inline mandatory notMandatory get Get
+//@   lemma_chain[prefix_0] after mandatory#1 havoc b : (canonPrefix31_0 (bufstr b) cvss31)
+//@   lemma_chain[prefix_1] after mandatory#2 havoc b : (canonPrefix31_1 (bufstr b) cvss31)
+//@   lemma_chain[prefix_2] after mandatory#3 havoc b : (canonPrefix31_2 (bufstr b) cvss31)
+//@   lemma_chain[prefix_3] after mandatory#4 havoc b : (canonPrefix31_3 (bufstr b) cvss31)
+//@   lemma_chain[prefix_4] after mandatory#5 havoc b : (canonPrefix31_4 (bufstr b) cvss31)
+//@   lemma_chain[prefix_5] after mandatory#6 havoc b : (canonPrefix31_5 (bufstr b) cvss31)
+//@   lemma_chain[prefix_6] after mandatory#7 havoc b : (canonPrefix31_6 (bufstr b) cvss31)
+//@   lemma_chain[prefix_7] after mandatory#8 havoc b : (canonPrefix31_7 (bufstr b) cvss31)
+//@   lemma_chain[prefix_8] after notMandatory#1 havoc b : (canonPrefix31_8 (bufstr b) cvss31)
+//@   lemma_chain[prefix_9] after notMandatory#2 havoc b : (canonPrefix31_9 (bufstr b) cvss31)
+//@   lemma_chain[prefix_10] after notMandatory#3 havoc b : (canonPrefix31_10 (bufstr b) cvss31)
+//@   lemma_chain[prefix_11] after notMandatory#4 havoc b : (canonPrefix31_11 (bufstr b) cvss31)
+//@   lemma_chain[prefix_12] after notMandatory#5 havoc b : (canonPrefix31_12 (bufstr b) cvss31)
+//@   lemma_chain[prefix_13] after notMandatory#6 havoc b : (canonPrefix31_13 (bufstr b) cvss31)
+//@   lemma_chain[prefix_14] after notMandatory#7 havoc b : (canonPrefix31_14 (bufstr b) cvss31)
+//@   lemma_chain[prefix_15] after notMandatory#8 havoc b : (canonPrefix31_15 (bufstr b) cvss31)
+//@   lemma_chain[prefix_16] after notMandatory#9 havoc b : (canonPrefix31_16 (bufstr b) cvss31)
+//@   lemma_chain[prefix_17] after notMandatory#10 havoc b : (canonPrefix31_17 (bufstr b) cvss31)
+//@   lemma_chain[prefix_18] after notMandatory#11 havoc b : (canonPrefix31_18 (bufstr b) cvss31)
+//@   lemma_chain[prefix_19] after notMandatory#12 havoc b : (canonPrefix31_19 (bufstr b) cvss31)
+//@   lemma_chain[prefix_20] after notMandatory#13 havoc b : (canonPrefix31_20 (bufstr b) cvss31)
+//@   lemma_chain[prefix_21] after notMandatory#14 havoc b : (canonPrefix31_21 (bufstr b) cvss31)
+//@   ensures[canonical] (isCanon31 result cvss31)
+//@   ensures[one_allocation] (= allocs (+ (old allocs) 1))
 
 // ---- Rating (C15) ----
 
@@ -127,19 +168,19 @@ package gocvss31
 //@   ensures[high]     (=> (= (ratingClass score) 3) (and (isnil result.1) (str= result.0 "HIGH")))
 //@   ensures[critical] (=> (= (ratingClass score) 4) (and (isnil result.1) (str= result.0 "CRITICAL")))
 //@   ensures[out_of_bounds] (=> (= (ratingClass score) (- 1)) (and (= result.1 ErrOutOfBoundsScore) (= (len result.0) 0)))
-//@   allocs 0
+//@   ensures[no_allocation] (= allocs (old allocs))
 
 // ---- scores (C03, C10, C11, C12); the post clauses are discharged by exhaustive case split ----
 
 //@ func (CVSS31).Impact(cvss31)
 //@   requires[wf] (wf31 cvss31)
 //@   ensures[spec] (<= (rabs (- (fp.to_real result) (impact31 cvss31))) 0.000000001)
-//@   allocs 0
+//@   ensures[no_allocation] (= allocs (old allocs))
 
 //@ func (CVSS31).Exploitability(cvss31)
 //@   requires[wf] (wf31 cvss31)
 //@   ensures[spec] (<= (rabs (- (fp.to_real result) (expl31 cvss31))) 0.000000001)
-//@   allocs 0
+//@   ensures[no_allocation] (= allocs (old allocs))
 
 //@ func (CVSS31).BaseScore(cvss31)
 //@   requires[wf] (wf31 cvss31)
@@ -147,18 +188,18 @@ package gocvss31
 //@   ensures[spec] (fp.eq result (tenth (base31K cvss31)))
 //@   ensures[one_decimal_in_scale] (exists-in (k 0 100) (fp.eq result (tenth k)))
 //@   ensures[rating_accepts] (>= (ratingClass result) 0)
-//@   allocs 0
+//@   ensures[no_allocation] (= allocs (old allocs))
 
 //@ func (CVSS31).TemporalScore(cvss31)
 //@   requires[wf] (wf31 cvss31)
 //@   ensures[spec] (fp.eq result (tenth (temporalFrom31 (base31K cvss31) cvss31)))
 //@   ensures[one_decimal_in_scale] (exists-in (k 0 100) (fp.eq result (tenth k)))
 //@   ensures[rating_accepts] (>= (ratingClass result) 0)
-//@   allocs 0
+//@   ensures[no_allocation] (= allocs (old allocs))
 
 //@ func (CVSS31).EnvironmentalScore(cvss31)
 //@   requires[wf] (wf31 cvss31)
 //@   ensures[spec] (fp.eq result (tenth (envFrom31 (envInner31K cvss31) cvss31)))
 //@   ensures[one_decimal_in_scale] (exists-in (k 0 100) (fp.eq result (tenth k)))
 //@   ensures[rating_accepts] (>= (ratingClass result) 0)
-//@   allocs 0
+//@   ensures[no_allocation] (= allocs (old allocs))
